@@ -24,7 +24,7 @@ class Violation(Exception):
 
 class Task(object):
     __slots__ = ('tid', 'vi', 'it', 'rows', 'objs', 'done', 'failed',
-                 'started')
+                 'started', 'pos')
 
     def __init__(self, tid, vi, it):
         self.tid = tid
@@ -35,6 +35,7 @@ class Task(object):
         self.done = False
         self.failed = None
         self.started = False
+        self.pos = 0        # lossy mode: next candidate index in the reference
 
 
 class Sched(object):
@@ -44,7 +45,10 @@ class Sched(object):
 
     def __init__(self, views, expected, log=None, items=False,
                  expect_fault=None, on_row=None, after_step=None,
-                 keep_objs=False, build_fresh=None):
+                 keep_objs=False, build_fresh=None, lossy=False):
+        # lossy: rows may be missing (an injected fault lost them for good);
+        # what is delivered is still a subsequence of the reference, in order
+        self.lossy = lossy
         self.views = list(views)
         self.expected = expected
         self.log = log or Log()
@@ -75,6 +79,28 @@ class Sched(object):
         if exp is None:
             return
         n = len(t.rows)
+        if self.lossy:
+            j = t.pos
+            if n == 1:
+                # (the header is never lost)
+                if not exp or t.rows[0] != exp[0]:
+                    raise Violation(
+                        'rows-diverge', 'iterator %s of view %d: first row '
+                        'is %r, the header is %r' % (
+                            t.tid, t.vi, t.rows[0], exp[0] if exp else None))
+                t.pos = 1
+                return
+            while j < len(exp) and exp[j] != t.rows[n - 1]:
+                j += 1
+            if j >= len(exp):
+                raise Violation(
+                    'rows-diverge',
+                    'iterator %s of view %d: row %d is %r, which is not '
+                    'among the rows a solo pass over an identical fresh '
+                    'view gives after those delivered so far (%s)'
+                    % (t.tid, t.vi, n - 1, t.rows[n - 1], show_rows(exp)))
+            t.pos = j + 1
+            return
         if n > len(exp) or t.rows[n - 1] != exp[n - 1]:
             want = exp[n - 1] if n <= len(exp) else '<end of table>'
             raise Violation(
@@ -85,7 +111,7 @@ class Sched(object):
 
     def _check_complete(self, t):
         exp = self.expected[t.vi]
-        if exp is None:
+        if exp is None or self.lossy:
             return
         if len(t.rows) != len(exp):
             raise Violation(
@@ -248,7 +274,7 @@ class Sched(object):
             with devices.as_task('petl-' + kind.lower()):
                 if kind == 'LEN':
                     n = len(view)
-                    if exp is not None and n != len(exp):
+                    if exp is not None and n != len(exp) and not self.lossy:
                         raise Violation(
                             'len-differs', 'len(view %d) is %d, a solo pass '
                             'yields %d rows' % (vi, n, len(exp)))
